@@ -273,19 +273,85 @@ fn hostile_conn(r: &mut Rng, nonce: &mut u64, port: u16, span_ms: u64) -> ConnPl
     c
 }
 
+/// Hostile traffic aimed at the TLS acceptor: everything that can go wrong
+/// before or inside the handshake, plus hostile HTTP inside a good session.
+fn hostile_tls_conn(r: &mut Rng, nonce: &mut u64, port: u16, span_ms: u64) -> ConnPlan {
+    let mut c = blank_conn(port);
+    c.start_ms = r.range(0, span_ms);
+    if r.chance(1, 2) {
+        c.c2s = gen_wire(r, true);
+        c.s2c = gen_wire(r, false);
+    }
+    let my = *nonce;
+    *nonce += 1;
+    match r.below(6) {
+        0 => {
+            let n = r.usize_in(1, 3000);
+            c.steps.push(Step::Send { data: Blob(r.bytes(n)), completes: None });
+            c.reqs.push(hostile("tls_garbage", false, my));
+            let k = r.below(3);
+            ending(r, &mut c, k);
+        }
+        1 | 2 => {
+            let hello = crate::client_tls::recorded_client_hello();
+            let cut = r.usize_in(0, hello.len());
+            if cut > 0 {
+                c.steps.push(Step::Send { data: Blob(hello[..cut].to_vec()), completes: None });
+            }
+            c.reqs.push(hostile(&format!("tls_truncated_hello@{cut}"), false, my));
+            let k = r.below(3);
+            ending(r, &mut c, k);
+        }
+        3 => {
+            // plain HTTP spoken to the TLS port
+            let w = WorkReq { nonce: my, steps: 0, step_ms: 0, panic_at: 0, resp_bytes: 0, body: None, chunked: None };
+            c.steps.push(Step::Send { data: Blob(w.bytes()), completes: None });
+            c.reqs.push(hostile("tls_plain_http", false, my));
+            let k = r.below(3);
+            ending(r, &mut c, k);
+        }
+        4 => {
+            // complete handshake, then leave without a request
+            c.kind = ConnKind::Tls;
+            c.reqs.push(hostile("tls_handshake_then_leave", false, my));
+            c.steps.push(Step::Sleep { ms: r.range(0, 100) });
+            c.steps.push(if r.chance(1, 2) { Step::Close } else { Step::Reset });
+        }
+        _ => {
+            // a syntax-breaking request inside a good TLS session
+            c.kind = ConnKind::Tls;
+            let (bytes, why) = mutate(r, my);
+            c.steps.push(Step::Send { data: Blob(bytes), completes: Some(0) });
+            c.reqs.push(hostile(&format!("mutate:{why}"), true, my));
+            c.steps.push(Step::AwaitResponses { count: 1, max_ms: 35_000 });
+            c.steps.push(Step::Close);
+        }
+    }
+    c
+}
+
 pub fn gen_random(seed: u64, idx: u64) -> Plan {
     let mut r = Rng::derive(mix(seed, idx), "c18-random");
     let mode = if r.chance(1, 2) { Mode::Cancel } else { Mode::Detached };
     let span = *r.pick(&[100u64, 1_000, 5_000, 40_000]);
     let mut nonce = 1u64;
     let mut conns = Vec::new();
+    let tls = r.chance(1, 5);
     let nh = r.usize_in(1, 2);
     for i in 0..nh {
-        conns.push(healthy_conn(&mut r, &mut nonce, 10_000 + i as u16, span));
+        let mut c = healthy_conn(&mut r, &mut nonce, 10_000 + i as u16, span);
+        if tls {
+            c.kind = ConnKind::Tls;
+        }
+        conns.push(c);
     }
     let nb = r.usize_in(1, 6);
     for i in 0..nb {
-        conns.push(hostile_conn(&mut r, &mut nonce, 11_000 + i as u16, span));
+        if tls {
+            conns.push(hostile_tls_conn(&mut r, &mut nonce, 11_000 + i as u16, span));
+        } else {
+            conns.push(hostile_conn(&mut r, &mut nonce, 11_000 + i as u16, span));
+        }
     }
     let mut accept_errs = Vec::new();
     if r.chance(1, 3) {
@@ -299,12 +365,12 @@ pub fn gen_random(seed: u64, idx: u64) -> Plan {
     Plan {
         property: "C18".into(),
         seed: mix(seed, idx),
-        server: ServerPlan { mode, body_limit: 1024, api: ApiKind::All, rt_override: None },
+        server: ServerPlan { mode, body_limit: 1024, api: ApiKind::All, rt_override: None, tls },
         conns,
         shutdown: None,
         accept_errs,
         final_health: true,
-        note: format!("random idx={idx}"),
+        note: format!("random idx={idx} tls={tls}"),
     }
 }
 
@@ -334,7 +400,7 @@ impl Scenario for C18 {
     }
     fn assumptions(&self) -> Vec<String> {
         vec![
-            "TLS acceptor path not simulated; the plain-HTTP acceptor shares HttpAcceptor::accept and everything after the handshake with it".into(),
+            "one run in five serves HTTPS (HttpsAcceptor with concurrent negotiations): healthy rustls clients, hostile handshakes (garbage, every-length prefixes of a recorded ClientHello, plain HTTP to the TLS port, handshake-then-leave) and hostile HTTP inside good sessions; TLS record contents are random, their lengths are not".into(),
             "for garbage and truncated input only 'server stays up' and 'whatever is answered parses as HTTP' are judged (a prefix may be a valid request)".into(),
             "the must-reject mutation list was calibrated once against the unchanged tree and frozen".into(),
         ]
@@ -349,6 +415,8 @@ impl Scenario for C18 {
             "accept_backoff_taken",
             "planned_panic_fired",
             "truncation_sweep_point",
+            "tls_healthy_client_checked",
+            "tls_hostile_handshake",
         ]
     }
 
@@ -394,7 +462,7 @@ impl Scenario for C18 {
                 let p = Plan {
                     property: "C18".into(),
                     seed: mix(seed, idx),
-                    server: ServerPlan { mode, body_limit: 1024, api: ApiKind::All, rt_override: None },
+                    server: ServerPlan { mode, body_limit: 1024, api: ApiKind::All, rt_override: None, tls: false },
                     conns: vec![healthy.clone(), c],
                     shutdown: None,
                     accept_errs: vec![],
@@ -441,8 +509,16 @@ pub fn check_c18(plan: &Plan, out: &Outcome, probes: &mut Vec<&'static str>) -> 
         if has_panic {
             probes.push("planned_panic_fired");
         }
-        // rule 2: whatever was answered is HTTP
+        // rule 2: whatever was answered is HTTP (raw connections to a TLS
+        // port get TLS alerts back, which are not judged)
+        let raw_to_tls = plan.server.tls && cp.kind != ConnKind::Tls;
+        if plan.server.tls && cp.kind == ConnKind::Tls && !hostile {
+            probes.push("tls_healthy_client_checked");
+        }
         match (&obs.parse_err, truncated_at(obs)) {
+            _ if raw_to_tls => {
+                probes.push("tls_hostile_handshake");
+            }
             (Some(e), None) => v.push(Violation {
                 rule: "c18.not_http".into(),
                 detail: format!("conn {ci} ({}): bytes received from the server do not parse as an HTTP response: {:?}", describe(cp), e),
